@@ -114,6 +114,17 @@ func (s *sim) send(src, dst *node, m outMsg, released bool) {
 		s.rc.Event("HOLD %s", tag)
 		return
 	}
+	if !released && s.cfg.DropPrecommitPm > 0 && m.proto == module.ProtoConsensus && m.sub == consensus.ProtoVote {
+		// "precommit starvation": polkas form and validators lock, but commits fail,
+		// so that later rounds run with locks held (where the lock rules matter)
+		if msg, err := consensus.UnmarshalMessage(uint16(m.sub), m.data); err == nil {
+			if vm, ok := msg.(*consensus.VoteMessage); ok && vm.Type == consensus.VoteTypePrecommit && vm.Round < 3 && s.tape.Permille("drop.pc", s.cfg.DropPrecommitPm) {
+				s.rc.Fault("precommit_dropped")
+				s.rc.Event("DROP-PC %s", tag)
+				return
+			}
+		}
+	}
 	if !released && s.tape.Permille("drop", s.cfg.DropPm) {
 		s.rc.Fault("drop")
 		s.rc.Event("DROP %s", tag)
